@@ -680,6 +680,22 @@ def run(ctx: core.Run):
         if a != ["ok", impl]:
             ctx.disagree("classify: model != EngineToken regexes", {"token": hx(t), "impl": impl, "model": a})
 
+    # ------------------------------------------------------------------ the pre-fix end-of-string search (record of the defect)
+    import re
+    old_rx = re.compile(rb"[^\\]\)", re.S)          # Tokenizer.UTF16_END before the fix
+    old_cases = []
+    for s_ in strs[:400]:
+        u = s_.encode("utf-16-be")
+        for c in e.String._ESCAPED_CHARS:
+            u = u.replace(c, b"\\" + c)
+        old_cases.append(b"(\xfe\xff" + u + b") /z 3")
+    oa = drv.batch([("ed.oldEnd", hx(b)) for b in old_cases])
+    for b, a in zip(old_cases, oa):
+        m = old_rx.search(b)
+        ctx.corr_cases += 1
+        if a != ["ok", str(m.end()) if m else "none"]:
+            ctx.disagree("oldEnd: model of the pre-fix regex != the regex", {"data": hx(b), "model": a})
+
     # ------------------------------------------------------------------ escape / unescape / decode / Float.write
     esc_cases = []
     for n in range(0, 6 if quick else 8):
